@@ -297,11 +297,12 @@ func c10SessPacket(c *Ctx, thr int) string {
 	if n < 0 {
 		n = 0
 	}
-	id := c.R.Intn(0x80)
-	if c.R.Intn(8) == 0 {
-		id = int(int32(c.R.Uint32()))
+	id := c10ID(c)
+	if c.R.Intn(40) == 0 {
+		// incompressible, idLen+len(Data) = k·32768 (- 1, + 1)
+		return c10PktsString([]pk.Packet{{ID: id, Data: c10Gen(c, (1+c.R.Intn(4))*32768+c.R.Intn(3)-1-c10IDLen(id))}})
 	}
-	return c10PktsString([]pk.Packet{{ID: int32(id), Data: c10Payload(c, n)}})
+	return c10PktsString([]pk.Packet{{ID: id, Data: c10Payload(c, n)}})
 }
 
 // c10Script builds a login-like session: plain packets both ways; then x sends its last plain packet,
